@@ -81,6 +81,34 @@ fn key_order(text: &str) -> Vec<String> {
     out
 }
 
+/// a user struct that embeds the number with `#[serde(flatten)]`: serde then hands the number only
+/// the members its Deserialize implementation announces as its fields
+#[derive(Serialize, serde::Deserialize)]
+#[serde(bound = "D: Serialize + DeserializeOwned")]
+struct Wrap<D> {
+    tag: u32,
+    #[serde(flatten)]
+    inner: D,
+    tail: u32,
+}
+
+/// records the struct name and field list a Deserialize implementation announces
+struct FieldRecorder<'a>(&'a mut Option<(&'static str, Vec<&'static str>)>);
+impl<'de, 'a> serde::Deserializer<'de> for FieldRecorder<'a> {
+    type Error = serde::de::value::Error;
+    fn deserialize_any<V: serde::de::Visitor<'de>>(self, _v: V) -> Result<V::Value, Self::Error> {
+        Err(serde::de::Error::custom("recorder"))
+    }
+    fn deserialize_struct<V: serde::de::Visitor<'de>>(self, name: &'static str, fields: &'static [&'static str], _v: V) -> Result<V::Value, Self::Error> {
+        *self.0 = Some((name, fields.to_vec()));
+        Err(serde::de::Error::custom("recorder"))
+    }
+    serde::forward_to_deserialize_any! {
+        bool i8 i16 i32 i64 i128 u8 u16 u32 u64 u128 f32 f64 char str string bytes byte_buf option unit unit_struct
+        newtype_struct seq tuple tuple_struct map enum identifier ignored_any
+    }
+}
+
 fn check_type<F: Flt + Serialize + DeserializeOwned, D: Subject<F> + Serialize + DeserializeOwned>(st: &mut Stats, full_product: bool) {
     let d = Dims::NONE;
     let l = D::layout(d);
@@ -111,6 +139,26 @@ fn check_type<F: Flt + Serialize + DeserializeOwned, D: Subject<F> + Serialize +
         }
     }
     let slot_names: Vec<String> = l.slots.iter().map(|s| s.name.clone()).collect();
+    // the field list the Deserialize implementation announces (what flattening, field-filtering and
+    // self-describing formats go by) is exactly the documented top-level names in declaration order
+    {
+        let mut top: Vec<String> = Vec::new();
+        for s in &slot_names {
+            let t = s.split('.').next().unwrap().to_string();
+            if !top.contains(&t) {
+                top.push(t);
+            }
+        }
+        let mut rec = None;
+        let _ = <D as serde::Deserialize>::deserialize(FieldRecorder(&mut rec));
+        st.evaluations += 1;
+        if let Some((_, fields)) = rec {
+            let fields: Vec<String> = fields.iter().map(|f| f.to_string()).collect();
+            if fields != top {
+                st.violation(Violation { sig: format!("serde {tn} announced-fields"), case: json!({"type": tn}), what: format!("Deserialize announces the fields {fields:?}, the stored members are {top:?}") });
+            }
+        }
+    }
     for vals in cases {
         let p = Parts { vals: vals.clone(), present: vec![] };
         let x = D::build(d, &p);
@@ -158,6 +206,20 @@ fn check_type<F: Flt + Serialize + DeserializeOwned, D: Subject<F> + Serialize +
                 }
             }
             Err(e) => fail("deserialize", format!("from_value failed: {e}")),
+        }
+        // (iv) embedded in a user struct with #[serde(flatten)]
+        match serde_json::to_value(&Wrap { tag: 7, inner: x.clone(), tail: 9 }) {
+            Ok(wv) => match serde_json::from_value::<Wrap<D>>(wv.clone()) {
+                Ok(back) => {
+                    let bp = back.inner.parts(d);
+                    if bp.bits() != p.bits() || back.tag != 7 || back.tail != 9 {
+                        let i = (0..n).find(|&i| bp.vals[i].bits() != vals[i].bits()).unwrap_or(0);
+                        fail("flatten-roundtrip", format!("flattened into a user struct: slot {} restored as {:e}, was {:e}", slot_names[i], bp.vals[i].to64(), vals[i].to64()));
+                    }
+                }
+                Err(e) => fail("flatten-deserialize", format!("from_value of the flattened struct failed: {e}")),
+            },
+            Err(e) => fail("flatten-serialize", format!("to_value of the flattened struct failed: {e}")),
         }
         // (ii) through JSON text, for values the format represents exactly: a value qualifies when
         // the bare float survives to_string / from_str bit for bit (serde_json without
@@ -239,7 +301,7 @@ fn main() {
         mode: cli.mode,
         seed: cli.seed,
         start,
-        rule: "Dual, Dual2, Dual3, HyperDual, HyperHyperDual over f32 and f64 and the nestings Dual<Dual>, Dual<Dual<Dual>>, Dual2<Dual>, Dual3<HyperDual>, HyperDual<Dual2>, HyperHyperDual<Dual> x parts from {0, -0, 1.5, -2.25, 1/3, pi, smallest denormal, MAX, -MIN_POSITIVE, 0.1, 0.1f32 and -1e15f32 widened}: full product for <= 4 parts, each part sweeping the alphabet with pairwise distinct other parts beyond; through serde_json::Value (bit-exact), through JSON text for every value whose bare float survives the text format bit for bit, and with the field order read off the serialized text. Non-trivial: every value.".into(),
+        rule: "Dual, Dual2, Dual3, HyperDual, HyperHyperDual over f32 and f64 and the nestings Dual<Dual>, Dual<Dual<Dual>>, Dual2<Dual>, Dual3<HyperDual>, HyperDual<Dual2>, HyperHyperDual<Dual> x parts from {0, -0, 1.5, -2.25, 1/3, pi, smallest denormal, MAX, -MIN_POSITIVE, 0.1, 0.1f32 and -1e15f32 widened}: full product for <= 4 parts, each part sweeping the alphabet with pairwise distinct other parts beyond; through serde_json::Value (bit-exact), through JSON text for every value whose bare float survives the text format bit for bit, with the field order read off the serialized text, embedded in a user struct with #[serde(flatten)], and with the field list announced to the Deserializer compared with the stored members. Non-trivial: every value.".into(),
         assumptions: vec!["serde_json::Value holds numbers as f64, so f32 and f64 parts are represented exactly; JSON text is only used for values it represents exactly, decided on the bare float".into()],
         extra: json!({}),
         exhaustive: true,
